@@ -246,6 +246,8 @@ def run_job(job, scratch_root, keep=False):
     for f in lib_fail:
         vac.append("DFCC library obligation not discharged: %s %s" % (f["property"], f["description"]))
     res["vacuity"] = vac
+    if failed and lib_fail and all(v.startswith("DFCC library") for v in vac):
+        vac = []  # a user-level failure explains the library failures behind it
     if vac:
         res["status"] = "vacuous"
         res["note"] += " ".join(vac)
